@@ -54,7 +54,7 @@ CONSUMERS = ['none', 'none', 'listoflists', 'lookup', 'dictlookup',
 def budget(tier):
     if tier == 'quick':
         return {'cases': 16000, 'wall_cap_s': 240}
-    return {'cases': 300000, 'wall_cap_s': 1500}
+    return {'cases': 700000, 'wall_cap_s': 1500}
 
 
 def gen_case(rng, tier, g):
